@@ -187,7 +187,6 @@ def rules_and_config(files, delays, log):
 
 def _child_lint(tmp, files, w, delays):
     """forked child: Linter + lint_files_glob + Reporter.output with three real handlers"""
-    import gc
     ll.logger.setLevel(logging.CRITICAL + 1)
     src = tmp / 'src'
     write_sources(src, files)
@@ -206,12 +205,9 @@ def _child_lint(tmp, files, w, delays):
             raw.append((type(handler).__name__, [reports[k] for k in range(len(reports))]))
         out['raw'] = raw
         linter.reporter.output()
-        # The LazyTextfile targets are closed only by garbage collection.  Here the harness flushes every handle that
-        # is still open, i.e. this run observes what the handlers WROTE; whether it reaches the disk without this help
-        # is checked separately (cli_lint, finding parallel-output-lost).
-        for o in gc.get_objects():
-            if isinstance(o, LazyTextfile) and o.file_handle:
-                o.file_handle.flush()
+        # no harness-side flush/close here: the files are read exactly as Reporter.output() left them (LazyTextfile.write
+        # flushes since the fix: commit for class parallel-output-lost; before it they were empty at this point in the
+        # parallel path)
     except BaseException as e:     # noqa
         out['error'] = type(e).__name__ + ': ' + str(e)[:200]
     for key, fn in (('default', 'default.txt'), ('junit', 'junit.xml'), ('viol', 'viol.yml')):
@@ -379,11 +375,6 @@ def normalise(res):
     return res
 
 
-def known_output_lost(w):
-    """class of the output-file finding: the parallel path (Lean: KnownOutputLost)"""
-    return 'parallel-output-lost' if w >= 2 else None
-
-
 def reports_of(junit_raw):
     """per-file reports as the driver prints them: (id ok j…) / (id error), sorted by id"""
     out = []
@@ -404,8 +395,9 @@ class C42(Prop):
     props_module = 'LokiModel.Props.C42'
     driver = 'Drivers/C42.lean'
     theorems = ['C42_each_once', 'C42_handlers_perm', 'C42_per_file', 'C42_count', 'C42_schedule_independent',
-                'C42_progress', 'C42_serial_run', 'C42_accept_sound', 'C42_full_false', 'C42_disk_partial']
+                'C42_progress', 'C42_serial_run', 'C42_accept_sound', 'C42_disk']
     design_ref = 'DESIGN.md 4.G C42'
+    findings_module = 'LokiModel.Findings.C42'
     level = 'proof'
     level_text = (
         'Lean theorems about a transition-system model of lint_files_glob / check_and_fix_file / Reporter.add_file_report '
@@ -417,8 +409,9 @@ class C42(Prop):
         'list is a permutation of files.map (handle o lint), i.e. of the serial result), C42_per_file (same for any '
         'per-file selection), C42_count (checked_count = number of successful files), C42_schedule_independent (any two '
         'final states for any two worker counts agree up to permutation), C42_progress (no deadlock), C42_serial_run (the '
-        'serial loop is a run ending with done = files), C42_accept_sound (a replayed event list is a run) - all at full '
-        'strength by an inductive invariant. Tied to the code by trace validation: real lint runs with 1..8 workers on '
+        'serial loop is a run ending with done = files), C42_accept_sound (a replayed event list is a run), C42_disk (what is on '
+        'disk after Reporter.output is a permutation of the serial result for every w - full strength since the fix: commit for '
+        'parallel-output-lost, the former behaviour is kept in Findings/C42.lean) - all at full strength by an inductive invariant. Tied to the code by trace validation: real lint runs with 1..8 workers on '
         'generated file sets incl. unparsable files, completion order perturbed by a sleeping harness rule; the Lean driver '
         'must construct a run whose per-handler list orders equal the observed ones (FIFO starts, worker bound) and its '
         'per-file reports and count must equal the real ones; a Python oracle compares the normalised outputs of the three '
@@ -492,8 +485,7 @@ class C42(Prop):
             return [A('error'), A('lint-failed'), run['error']]
         return [A('ok'), [A('accepted'), True], [A('count'), run['count']],
                 [A('reports')] + reports_of(run['junit_raw']),
-                [A('same-multiset'), True],
-                [A('known-output-lost'), w >= 2]]
+                [A('same-multiset'), True]]
 
     def oracle(self, req):
         files, nh, w, orders, delays = dec(req)
@@ -545,7 +537,7 @@ class C42(Prop):
                             f'lint_files(max_workers={w}) in a stand-alone process: {raw} file on disk after exit '
                             + ('is EMPTY' if lost else f'differs: {str(api[name])[:200]}')
                             + f'; the serial run wrote {len(ser[raw] or "")} characters ({str(ser[name])[:120]}...)',
-                            known_output_lost(w) if lost else None))
+                            None))
         # ground truth from the generator for the harness rule
         exp = [[i, A('ok')] + [j for j, b in enumerate(fl) if b] if k == 'ok' else [i, A('error')] for i, k, fl in files]
         if reports_of(par['junit_raw']) != exp:
@@ -558,7 +550,7 @@ class C42(Prop):
         return sum(f[0] for f in files) % 3 == 0
 
     def classes(self):
-        return ['parallel-output-lost']
+        return []        # parallel-output-lost is fixed (known_findings.json); nothing is tolerated any more
 
 
 PROP = C42()
